@@ -323,7 +323,12 @@ fn constant_fun_result(
                         None,
                     )),
                 };
-                let optimizer = if let Ok(res) = get_optimizer(&call_spec.loc, opts.clone()) {
+                // This program is only run to obtain the constant, so compile it
+                // without optimization: optimizing it would visit every helper
+                // body again, find this same constant call there and recurse
+                // without end.
+                let inner_opts = opts.set_optimize(false);
+                let optimizer = if let Ok(res) = get_optimizer(&call_spec.loc, inner_opts.clone()) {
                     res
                 } else {
                     return None;
@@ -333,7 +338,7 @@ fn constant_fun_result(
                 let mut wrapper =
                     CompileContextWrapper::new(allocator, runner.clone(), &mut symbols, optimizer);
 
-                if let Ok(code) = codegen(&mut wrapper.context, opts.clone(), &to_compile) {
+                if let Ok(code) = codegen(&mut wrapper.context, inner_opts, &to_compile) {
                     code
                 } else {
                     return None;
